@@ -20,6 +20,30 @@ identity = ec.eng_identity
 shrink_candidates = ec.eng_shrink
 
 
+def b2s(x):
+    return bytes(x or []).decode("utf-8", "replace")
+
+
+def ctx_case(c):
+    bl = lambda l: ec.cbl(l or [])
+    kv = lambda l: core.clist(["(%s, %s)" % (ec.cbytes(b["k"]) if hasattr(ec, "cbytes") else core.cbytes(b["k"]), core.cfloat(b["v"])) for b in (l or [])])
+    return ("{| x_listing := %s; x_makefiles := %s; x_scripts := %s; x_types := %s; x_types2 := %s; x_boosts := %s; x_boosts2 := %s; "
+            "x_targets := %s; x_obs_scripts := %s; x_err := %s |}") % (
+        bl(c["listing"]), bl(c["makefiles"]), bl(c["scripts"]), bl(c.get("types")), bl(c.get("types2")), kv(c.get("boosts")), kv(c.get("boosts2")),
+        bl(c.get("targets")), bl(c.get("obs_scripts")), core.cbool(c.get("err", False)))
+
+
+FAMILIES = {"ctx": dict(
+    HARNESS="c13ctx", N={"quick": 400, "thorough": 6000}, SHARD=100, CASE_TYPE="ctxcase", CHECK_FN="check_cases",
+    HEADER="From Coq Require Import List String ZArith NArith Bool Floats.\nFrom WTF Require Import Model.Validate Model.Text Model.Context Check.Render Check.C13Ctx.\nImport ListNotations.\n",
+    coq_case=ctx_case,
+    identity=lambda c: c["entries"],
+    sample=lambda c: {"family": "ctx", "directory": [b2s(n) for n in c["listing"]], "project_types": [b2s(t) for t in c.get("types") or []],
+                      "boosts": {b2s(b["k"]): b["v"] for b in (c.get("boosts") or [])[:6]}, "make_targets": [b2s(t) for t in c.get("targets") or []]},
+    shrink_candidates=lambda c: [dict(c, entries=c["entries"][:i] + c["entries"][i + 1:]) for i in range(len(c["entries"]))] if len(c["entries"]) > 1 else [],
+)}
+
+
 def keep(c):
     return not c.get("note")
 
@@ -27,6 +51,11 @@ def keep(c):
 def finding_key(c, r):
     return None
 
-LEVEL_TEXT = "Theorems (Props/C13.v): boosts never add or remove a candidate (answers with and without boosts contain the same commands at a limit that cuts nothing, NLP on or off), the accumulator's documents are the candidates whatever the boosts, a command without the boosted word keeps exactly its score. Tied by the engine correspondence (boost / no-boost pairs)."
-LEVEL_NOTE = "Partial: 'never lowers the score of a command that contains the word' needs float monotonicity and is checked per case only; the directory analyzer (AnalyzeDirectory) is not modelled yet. Trusted: Coq kernel; oracles; harness."
+LEVEL_TEXT = ("Theorems (Props/C13.v): boosts never add or remove a candidate (answers with and without boosts contain the same commands at a limit that cuts nothing, "
+              "NLP on or off), the accumulator's documents are the candidates whatever the boosts, a command without the boosted word keeps exactly its score; for the "
+              "directory analyzer (Model/Context.v): every project type is reported at most once for every listing, 'generic' is reported exactly when no entry is recognised "
+              "and is then the whole answer, every other reported type comes from an entry that carries it and every such type is reported, and every value of the boost map "
+              "(project tables, package scripts, make targets, any combination) is finite and at least 1. Tied by the engine correspondence (boost / no-boost pairs) and by "
+              "running AnalyzeDirectory / GetContextBoosts on generated directories (each marker name alone on every run, then combinations, arbitrary Makefile and package.json text).")
+LEVEL_NOTE = "Partial: 'never lowers the score of a command that contains the word' needs float monotonicity and is checked per case only; encoding/json (package.json) and os.ReadDir order are oracles of the analyzer model. Trusted: Coq kernel; oracles; harness."
 TECHNIQUE = "Coq proof over the engine model + differential correspondence (vm_compute, bit-exact scores)"
